@@ -4,7 +4,9 @@ Template = ordinary Verus text (spec functions, lemmas, trusted std specificatio
 directive lines starting with `//@`:
 
   //@ include <relative file>
-  //@ cut <repo-relative path> :: <selector> [rules=a,b,c] [keep_attrs]
+  //@ cut <repo-relative path> :: <selector> [rules=a,b,c]
+  //@       selector may also be `closure <n> as <name> in <fn selector>`: the n-th closure of that
+  //@       function, re-headed as `fn <name>(<closure params>) -> <ret> <body>`
   //@   ret <name>
   //@   sig                (following non-directive lines = requires/ensures/decreases text)
   //@   loop <n> [iter=<name>]
@@ -126,13 +128,21 @@ def build(template_path, out_path, canary=False, repo=None, mutate=None):
                 raise LostAnchor(f"missing file {p}")
             files[p] = SourceFile(p)
         sf = files[p]
-        it = sf.find(cut.selector)
-        raw = sf.text(it)
-        s, e, l0, l1 = sf.span(it)
+        mclo = re.match(r"closure (\d+) as (\w+) in (.*)$", cut.selector)
+        if mclo:
+            it = sf.find(mclo.group(3))
+            raw, cs, ce = sf.closure_as_fn(it, int(mclo.group(1)), mclo.group(2))
+            from .rustlex import line_of
+            s, e, l0, l1 = cs, ce, line_of(sf.src, cs), line_of(sf.src, ce)
+            cut.name = mclo.group(2)
+        else:
+            it = sf.find(cut.selector)
+            raw = sf.text(it)
+            s, e, l0, l1 = sf.span(it)
         cut.src_lines = (l0, l1)
         cut.sha = sha(raw)
         cut.raw = raw
-        cut.has_body = it.kind == "fn" and it.body_open >= 0
+        cut.has_body = (it.kind == "fn" and it.body_open >= 0)
         if mutate is not None:
             raw = mutate(cut, raw)
         log = []
